@@ -53,25 +53,29 @@ impl<H: Hasher> BatchMerkleProof<H> {
 
         let depth = paths[0].len();
 
-        // sort indexes in ascending order, and also re-arrange paths accordingly
+        // sort indexes in ascending order, and also re-arrange paths accordingly; remember the
+        // position of each index in the provided list, as the leaves of a batch proof are listed
+        // in the order of the indexes for which the proof was built (see MerkleTree::prove_batch)
         let mut path_map = BTreeMap::new();
-        for (&index, path) in indexes.iter().zip(paths.iter().cloned()) {
+        let mut position_map = BTreeMap::new();
+        for (position, (&index, path)) in indexes.iter().zip(paths.iter().cloned()).enumerate() {
             assert_eq!(depth, path.len(), "not all paths have the same length");
             path_map.insert(index, path);
+            position_map.insert(index, position);
         }
+        let mut leaves = vec![H::Digest::default(); paths.len()];
         let indexes = path_map.keys().cloned().collect::<Vec<_>>();
         let paths = path_map.values().cloned().collect::<Vec<_>>();
         path_map.clear();
 
-        let mut leaves = vec![H::Digest::default(); indexes.len()];
         let mut nodes: Vec<Vec<H::Digest>> = Vec::with_capacity(indexes.len());
 
         // populate values and the first layer of proof nodes
         let mut i = 0;
         while i < indexes.len() {
-            leaves[i] = paths[i][0];
+            leaves[position_map[&indexes[i]]] = paths[i][0];
             if indexes.len() > i + 1 && are_siblings(indexes[i], indexes[i + 1]) {
-                leaves[i + 1] = paths[i][1];
+                leaves[position_map[&indexes[i + 1]]] = paths[i][1];
                 nodes.push(vec![]);
                 i += 1;
             } else {
@@ -114,13 +118,18 @@ impl<H: Hasher> BatchMerkleProof<H> {
     /// * Any of the specified `indexes` is greater than or equal to the number of leaves in the
     ///   tree for which this batch proof was generated.
     /// * List of indexes contains duplicates.
-    /// * The proof does not resolve to a single root.
+    /// * Number of provided indexes does not match the number of leaf nodes in the proof.
+    /// * The proof does not resolve to a single root, or contains nodes which are not needed to
+    ///   compute it.
     pub fn get_root(&self, indexes: &[usize]) -> Result<H::Digest, MerkleTreeError> {
         if indexes.is_empty() {
             return Err(MerkleTreeError::TooFewLeafIndexes);
         }
         if indexes.len() > MAX_PATHS {
             return Err(MerkleTreeError::TooManyLeafIndexes(MAX_PATHS, indexes.len()));
+        }
+        if indexes.len() != self.leaves.len() {
+            return Err(MerkleTreeError::InvalidProof);
         }
 
         let mut buf = [H::Digest::default(); 2];
@@ -239,6 +248,12 @@ impl<H: Hasher> BatchMerkleProof<H> {
                 i += 1;
             }
         }
+
+        // a well-formed proof does not contain nodes which are not needed to compute the root
+        if !all_nodes_consumed(&proof_pointers, &self.nodes) {
+            return Err(MerkleTreeError::InvalidProof);
+        }
+
         v.remove(&1).ok_or(MerkleTreeError::InvalidProof)
     }
 
@@ -249,6 +264,10 @@ impl<H: Hasher> BatchMerkleProof<H> {
     /// * No indexes were provided (i.e., `indexes` is an empty slice).
     /// * Number of provided indexes is greater than 255.
     /// * Number of provided indexes does not match the number of leaf nodes in the proof.
+    /// * Any of the specified `indexes` is greater than or equal to the number of leaves in the
+    ///   tree for which this batch proof was generated.
+    /// * List of indexes contains duplicates.
+    /// * The proof does not resolve to a single root.
     pub fn into_paths(self, indexes: &[usize]) -> Result<Vec<Vec<H::Digest>>, MerkleTreeError> {
         if indexes.is_empty() {
             return Err(MerkleTreeError::TooFewLeafIndexes);
@@ -262,16 +281,18 @@ impl<H: Hasher> BatchMerkleProof<H> {
 
         let mut partial_tree_map = BTreeMap::new();
 
-        for (&i, leaf) in indexes.iter().zip(self.leaves.iter()) {
-            partial_tree_map.insert(i + (1 << (self.depth)), *leaf);
-        }
-
         let mut buf = [H::Digest::default(); 2];
         let mut v = BTreeMap::new();
 
         // replace odd indexes, offset, and sort in ascending order
         let original_indexes = indexes;
         let index_map = super::map_indexes(indexes, self.depth as usize)?;
+
+        // all indexes are now known to be smaller than 2^depth (which fits into usize)
+        for (&i, leaf) in indexes.iter().zip(self.leaves.iter()) {
+            partial_tree_map.insert(i + (1 << (self.depth)), *leaf);
+        }
+
         let indexes = super::normalize_indexes(indexes);
         if indexes.len() != self.nodes.len() {
             return Err(MerkleTreeError::InvalidProof);
@@ -384,6 +405,11 @@ impl<H: Hasher> BatchMerkleProof<H> {
             }
         }
 
+        // a well-formed proof does not contain nodes which are not needed to compute the root
+        if !all_nodes_consumed(&proof_pointers, &self.nodes) {
+            return Err(MerkleTreeError::InvalidProof);
+        }
+
         original_indexes
             .iter()
             .map(|&i| get_path::<H>(i, &partial_tree_map, self.depth as usize))
@@ -473,6 +499,12 @@ impl<H: Hasher> BatchMerkleProof<H> {
 /// immediately follows the left node.
 fn are_siblings(left: usize, right: usize) -> bool {
     left & 1 == 0 && right - 1 == left
+}
+
+/// Returns true if for every vector of proof nodes the corresponding pointer has moved past the
+/// last node of the vector.
+fn all_nodes_consumed<D>(proof_pointers: &[usize], nodes: &[Vec<D>]) -> bool {
+    proof_pointers.iter().zip(nodes.iter()).all(|(&pointer, nodes)| pointer == nodes.len())
 }
 
 /// Computes the Merkle path from the computed (partial) tree.
